@@ -149,7 +149,7 @@ def run_check(cid, tier, seed):
         else:
             new_failed.append(ob)
     # native: run-time monitoring of the same contracts + property oracle on small-scope histories
-    budget = P.get('native_budget', {}).get(tier, 150 if tier == 'quick' else 1500)
+    budget = P.get('native_budget', {}).get(tier, 2000 if tier == 'quick' else 40000)
     nat_rc, nat, nat_err = (0, None, '')
     if P.get('native', True):
         try:
